@@ -43,6 +43,22 @@ its last point record and between the points and the EVLRs.
        LasData.points[name], a record, a memory-mapped file; written by LasData.write / a writer in two chunks. The expected
        content is kept by the same selection on a plain table; the specification decoder reads the file; the model of the
        assignments (assign_elems) is run on the same (point, element, value) triples.
+  (vii) the caller's side of the HEADER: the attributes are assigned once as plain values | every flag of the global encoding through its
+       named setter (bool / int / numpy bool / numpy integer), x/y/z scale and offset through their own attributes | the whole
+       sequence twice | every assignment twice in a row | other values first | assigned, written, read back by laspy and confirmed
+       (assigned again by name) before the file is produced | through the legacy attribute names | a GlobalEncoding object handed
+       over and its flags restated; in the sessions (read + edit + write, reader -> writer) the caller confirms every named attribute
+       of the header laspy presents with the value it presents: the decoder must find what the original file said.
+  (viii) the VLR payloads the specification lays out, in their FULL form: the complete 256-record classification lookup table
+       (blank descriptions for the classes not in use), partial tables with blank records, a single blank record, waveform packet
+       descriptors, GeoKeyDirectory / GeoDoubleParams / GeoAsciiParams, both WKT records, text area / superseded; as VLR and as
+       EVLR, alone, two of a kind adjacent, between ordinary records; strings with blanks at either end. (i): built through the
+       class laspy offers for the record (attribute by attribute) or handed over raw -> the decoder reads the payload and its
+       fields; (ii): the reference's reading of the payload (Spec/AsprsPoints.v spec_lookup_record, spec_waveform_descriptor,
+       spec_geokeys_header, spec_geokey_entry through spec_dec_known) against the contents laspy presents through its classes
+       (lookups, parsed_record, geo_keys, doubles, strings, string), the payload laspy holds, and the payload in the re-written file.
+       The model of the lookup table (lookup_parse: dict semantics of ClassificationLookupVlr.parse_record_data) against laspy's
+       class on the tables of the cases and on malformed ones.
 Search: the same checks with a second, pure-Python transcription of the tables (struct / int.from_bytes) instead of the
 model, so that a failing input is found without the model."""
 import atexit
@@ -78,6 +94,10 @@ ASSUMPTIONS = [
     "dimensions: binary scales, stored integers below 2**40); one scalar for elements with different scales is given element by "
     "element; las[name] = scalar / las.name = scalar (whole dimension by name) is not offered by laspy for any dimension and not used; "
     "an assignment laspy refuses is reported and must have stored nothing",
+    "VLR payloads the specification lays out are generated in the specification's form: lookup tables with distinct class numbers and "
+    "NUL-padded ASCII descriptions, GeoKeyDirectory headers whose number of keys is the number of entries, NUL-terminated ASCII WKT / "
+    "GeoAsciiParams; the description of a record built through laspy's own class is laspy's (not compared); record ids / user ids as "
+    "identity are C08's",
     "header.scales / header.offsets / VLR.record_data are plain attributes: the caller's object is kept by reference (Python attribute "
     "semantics), so the caller is not made to modify those after the assignment; ExtraBytesParams copies its scales / offsets "
     "(np.array) and the caller is made to re-use them",
@@ -276,6 +296,8 @@ class PyRef:
             return py_enc_fields(py_vlr_layout(r[1]), r[2])
         if op == "dec_ebd":
             return py_dec_fields(PY_EBD, r[1])
+        if op == "dec_known":
+            return py_dec_fields(PY_KNOWN[r[1]], r[2]) if len(r[2]) == PY_KNOWN_SIZE[r[1]] else ("err", "EShort")
         if op == "enc_ebd":
             return py_enc_fields(PY_EBD, r[1])
         if op == "legacy_ok":
@@ -357,6 +379,8 @@ class ModelRef:
                 lines.append(f"enc_vlr {'T' if r[1] else 'F'} {'|'.join(_vtok(v) for v in r[2])}")
             elif op == "dec_ebd":
                 lines.append(f"dec_ebd {common.hexb(r[1])}")
+            elif op == "dec_known":
+                lines.append(f"dec_known {r[1]} {common.hexb(r[2])}")
             elif op == "enc_ebd":
                 lines.append(f"enc_ebd {'|'.join(_vtok(v) for v in r[1])}")
             elif op == "legacy_ok":
@@ -388,7 +412,7 @@ class ModelRef:
             return o.split("|")
         if op == "legacy_ok":
             return o == "T"
-        if op in ("dec_hdr", "dec_ebd"):
+        if op in ("dec_hdr", "dec_ebd", "dec_known"):
             tok, rest = o.rsplit(" ", 1)
             return (_pairs(tok), int(rest))
         if op in ("enc_hdr", "enc_vlr", "enc_ebd", "enc", "genc"):
@@ -498,9 +522,238 @@ def case_ebs(case):
     return eb_pairs(case["extra_dims"]) + ([(TRAIL, t)] if t else [])
 
 
-def rand_vlrs(rng, k, big=False):
+# ---------------------------------------------------------------------------------------------------
+# VLR payloads the specification defines (second transcription, pure Python): record layouts in the vocabulary of py_dec_fields
+# ---------------------------------------------------------------------------------------------------
+PY_KNOWN = {
+    # Classification Lookup (LASF_Spec, 0): records of  ClassNumber unsigned char; Description char[15]  (a complete table has 256)
+    "lookup": [("class_number", "u", 1), ("description", "str", 15)],
+    # Waveform Packet Descriptor (LASF_Spec, 100..354): 26 bytes
+    "waveform": [("bits_per_sample", "u", 1), ("waveform_compression_type", "u", 1), ("number_of_samples", "u", 4),
+                 ("temporal_sample_spacing", "u", 4), ("digitizer_gain", "u", 8), ("digitizer_offset", "u", 8)],
+    # GeoKeyDirectoryTag (LASF_Projection, 34735): header of 4 unsigned shorts, then wNumberOfKeys entries of 4 unsigned shorts
+    "geokeys_header": [("key_directory_version", "u", 2), ("key_revision", "u", 2), ("minor_revision", "u", 2), ("number_of_keys", "u", 2)],
+    "geokey": [("id", "u", 2), ("tiff_tag_location", "u", 2), ("count", "u", 2), ("value_offset", "u", 2)],
+}
+PY_KNOWN_SIZE = {k: sum(w for _, _, w in v) for k, v in PY_KNOWN.items()}
+KNOWN_KINDS = ["lookup-full", "lookup-partial", "lookup-blank", "waveform", "geokeys", "geodoubles", "geoascii", "wkt-cs", "wkt-math", "textarea"]
+# laspy's own description of the records it builds through its API objects (not a matter of the specification: not compared)
+WKT_SAMPLE = ('PROJCS["NAD83 / UTM zone 17N",GEOGCS["NAD83",DATUM["North_American_Datum_1983",SPHEROID["GRS 1980",6378137,298.257222101]],'
+              'PRIMEM["Greenwich",0],UNIT["degree",0.0174532925199433]],PROJECTION["Transverse_Mercator"],PARAMETER["central_meridian",-81],'
+              'UNIT["metre",1],AXIS["Easting",EAST],AXIS["Northing",NORTH]]')
+
+
+def known_kind(uid, rid):
+    """which payload layout of the specification a (user id, record id) pair announces"""
+    if uid == "LASF_Spec":
+        return "lookup" if rid == 0 else "waveform" if 100 <= rid <= 354 else None
+    if uid == "LASF_Projection":
+        return {34735: "geokeys", 34736: "geodoubles", 34737: "geoascii", 2111: "wkt", 2112: "wkt"}.get(rid)
+    return None
+
+
+def known_vlr(rng, kind, api=False):
+    """one record [user id, record id, description, payload hex] whose payload is in the FULL form the specification lays out.
+    api: the description is None (the record will be built through laspy's own class, which has its own description)"""
+    desc = None if api and not kind == "waveform" else lasio.rand_ascii(rng, rng.choice([0, 1, 21, 32]))
+    def text(k):
+        # printable ASCII without the "|" separator; blanks inside, and now and then at either end (they are part of the value)
+        t = lasio.rand_ascii(rng, k, [c for c in range(32, 127) if c != 124])
+        if k and rng.random() < 0.6:
+            t = rng.choice([" " + t[1:], t[:-1] + " ", t[:-1] + "\t" if k > 1 else t])
+        return t
+    if kind.startswith("lookup"):
+        if kind == "lookup-full":
+            # the complete table: one record per class 0..255, the classes not in use have a blank description
+            named = set(rng.sample(range(256), rng.choice([0, 1, 5, 40, 256])))
+            recs = [(c, text(rng.choice([1, 6, 14, 15])) if c in named else "") for c in range(256)]
+        elif kind == "lookup-blank":
+            recs = [(rng.randrange(256), "")]
+        else:
+            # some records of the table, in the producer's order, at least one of them with a blank description
+            cl = rng.sample(range(256), rng.choice([2, 3, 4, 19]))
+            recs = [(c, rng.choice(["", text(rng.choice([1, 7, 15]))])) for c in cl]
+            j = rng.randrange(len(recs))
+            recs[j] = (recs[j][0], "")
+        payload = b"".join(bytes([c]) + d.encode().ljust(15, b"\0") for c, d in recs)
+        return ["LASF_Spec", 0, desc, payload.hex()]
+    if kind == "waveform":
+        payload = (bytes([rng.choice([8, 16, 32]), rng.choice([0, 1])]) + rng.choice([0, 1, 88, 2 ** 32 - 1, rng.getrandbits(32)]).to_bytes(4, "little")
+                   + rng.choice([0, 1, 1000, 2 ** 32 - 1, rng.getrandbits(32)]).to_bytes(4, "little")
+                   + rng.choice(F64_SPECIAL + [rng.getrandbits(64)]).to_bytes(8, "little") + rng.choice(F64_SPECIAL + [rng.getrandbits(64)]).to_bytes(8, "little"))
+        return ["LASF_Spec", rng.choice([100, 101, 354, rng.randrange(100, 355)]), desc, payload.hex()]
+    if kind == "geokeys":
+        n = rng.choice([0, 1, 4, 12, rng.randrange(40)])
+        keys = sorted(rng.sample(range(1024, 5120), n))
+        payload = b"".join(v.to_bytes(2, "little") for v in [1, 1, 0, n])
+        for k in keys:
+            loc = rng.choice([0, 0, 34736, 34737])
+            payload += b"".join(v.to_bytes(2, "little") for v in [k, loc, 1 if loc == 0 else rng.choice([1, 7, 65535]), rng.choice([0, 1, 4326, 32617, 65535, rng.randrange(65536)])])
+        return ["LASF_Projection", 34735, desc, payload.hex()]
+    if kind == "geodoubles":
+        n = rng.choice([0, 1, 3, 10])
+        return ["LASF_Projection", 34736, desc, b"".join(rng.choice(F64_SPECIAL + [rng.getrandbits(64), lasio.f64bits(6378137.0)]).to_bytes(8, "little") for _ in range(n)).hex()]
+    if kind == "geoascii":
+        # ASCII values of the keys, each ended by "|", the whole ended by a NUL
+        parts = [text(rng.choice([1, 9, 40])) for _ in range(rng.choice([1, 2, 5]))]
+        return ["LASF_Projection", 34737, desc, ("".join(p + "|" for p in parts).encode() + b"\0").hex()]
+    if kind in ("wkt-cs", "wkt-math"):
+        w = rng.choice([WKT_SAMPLE, WKT_SAMPLE * 9, WKT_SAMPLE + " ", "\n" + WKT_SAMPLE + "\n", text(1), text(rng.choice([2, 300]))])
+        return ["LASF_Projection", 2112 if kind == "wkt-cs" else 2111, desc, (w.encode() + b"\0").hex()]
+    # records of the specification laspy has no class for: Text Area Description (LASF_Spec, 3), Superseded (LASF_Spec, 7)
+    return ["LASF_Spec", rng.choice([3, 7]), desc if desc is not None else "", lasio.rand_ascii(rng, rng.choice([0, 1, 80, 1000])).encode().hex()]
+
+
+def known_requests(vl):
+    """the reference-decoder requests for the payloads of a VLR list -> (requests, plan); plan: per record None | (kind, number of requests)"""
+    reqs, plan = [], []
+    for u, r, _, p in vl:
+        kind, data = known_kind(u, r), bytes.fromhex(p) if isinstance(p, str) else bytes(p)
+        if kind == "lookup":
+            k = len(data) // 16
+            reqs += [("dec_known", "lookup", data[16 * i:16 * i + 16]) for i in range(k)]
+            plan.append((kind, k, data))
+        elif kind == "waveform" and len(data) == 26:
+            reqs.append(("dec_known", "waveform", data))
+            plan.append((kind, 1, data))
+        elif kind == "geokeys" and len(data) >= 8:
+            k = (len(data) - 8) // 8
+            reqs += [("dec_known", "geokeys_header", data[:8])] + [("dec_known", "geokey", data[8 + 8 * i:16 + 8 * i]) for i in range(k)]
+            plan.append((kind, 1 + k, data))
+        else:
+            plan.append((kind, 0, data) if kind in ("geodoubles", "geoascii", "wkt") else None)
+    return reqs, plan
+
+
+def known_views_many(ref, lists):
+    """what the specification says the payloads of the known records of several VLR lists hold (one batch of reference requests):
+    per list, per record: None (the specification defines no layout) or a view"""
+    plans, reqs = [], []
+    for vl in lists:
+        r, pl = known_requests(vl)
+        reqs += r
+        plans.append(pl)
+    outs, q, res = (ref.batch(reqs) if reqs else []), 0, []
+    for plan in plans:
+        views = []
+        for pl in plan:
+            if pl is None:
+                views.append(None)
+                continue
+            kind, k, data = pl
+            o = outs[q:q + k]
+            q += k
+            if any(is_err(x) for x in o):
+                views.append({"kind": kind, "error": str([x for x in o if is_err(x)][0])})
+            elif kind == "lookup":
+                views.append({"kind": kind, "records": [[dict(x[0])["class_number"], dict(x[0])["description"].decode("latin1")] for x in o],
+                              "undescribed_bytes": len(data) % 16})
+            elif kind == "waveform":
+                views.append({"kind": kind, "fields": [v for _, v in o[0][0]]})
+            elif kind == "geokeys":
+                views.append({"kind": kind, "header": [v for _, v in o[0][0]], "keys": [[v for _, v in x[0]] for x in o[1:]], "undescribed_bytes": (len(data) - 8) % 8})
+            elif kind == "geodoubles":
+                views.append({"kind": kind, "doubles": [int.from_bytes(data[i:i + 8], "little") for i in range(0, len(data) - 7, 8)], "undescribed_bytes": len(data) % 8})
+            elif kind == "geoascii":
+                views.append({"kind": kind, "text": data.decode("latin1")})
+            else:
+                views.append({"kind": kind, "string": data.rstrip(b"\0").decode("latin1"), "terminated": data.endswith(b"\0")})
+        res.append(views)
+    return res
+
+
+def known_views(ref, vl):
+    return known_views_many(ref, [vl])[0]
+
+
+def known_laspy_view(v):
+    """the same view from the attributes laspy presents for a record it read"""
+    cls = type(v).__name__
+    try:
+        if cls == "ClassificationLookupVlr":
+            return {"kind": "lookup", "records": [[int(c), v[c]] for c in v.lookups], "undescribed_bytes": 0}
+        if cls == "WaveformPacketVlr":
+            r = v.parsed_record
+            return {"kind": "waveform", "fields": [int(r.bits_per_sample), int(r.waveform_compression_type), int(r.number_of_samples),
+                                                   int(r.temporal_sample_spacing), lasio.f64bits(r.digitizer_gain), lasio.f64bits(r.digitizer_offset)]}
+        if cls == "GeoKeyDirectoryVlr":
+            h = v.geo_keys_header
+            return {"kind": "geokeys", "header": [int(h.key_directory_version), int(h.key_revision), int(h.minor_revision), int(h.number_of_keys)],
+                    "keys": [[int(k.id), int(k.tiff_tag_location), int(k.count), int(k.value_offset)] for k in v.geo_keys], "undescribed_bytes": 0}
+        if cls == "GeoDoubleParamsVlr":
+            return {"kind": "geodoubles", "doubles": [lasio.f64bits(d.value) for d in v.doubles], "undescribed_bytes": 0}
+        if cls == "GeoAsciiParamsVlr":
+            return {"kind": "geoascii", "text": "\0".join(v.strings)}
+        if cls in ("WktCoordinateSystemVlr", "WktMathTransformVlr"):
+            return {"kind": "wkt", "string": v.string, "terminated": True}
+    except Exception as ex:
+        return {"kind": cls, "error": f"{common.exc_kind(ex)}: {str(ex)[:120]}"}
+    return {"kind": f"not parsed ({cls})"}
+
+
+def known_obj(u, r, ds, p):
+    """a record of the specification built through the class laspy offers for it, attribute by attribute (the values are the
+    python transcription's reading of the payload); None when laspy has no class"""
+    import ctypes
+    from laspy.vlrs import known as K
+    kind, data = known_kind(u, r), bytes.fromhex(p)
+    if kind == "lookup":
+        v = K.ClassificationLookupVlr()
+        for i in range(len(data) // 16):
+            v[data[16 * i]] = data[16 * i + 1:16 * i + 16].split(b"\0", 1)[0].decode()
+        return v
+    if kind == "waveform":
+        f = [x for _, x in py_dec_fields(PY_KNOWN["waveform"], data)[0]]
+        v = K.WaveformPacketVlr(r) if ds is None else K.WaveformPacketVlr(r, description=ds)
+        v.parsed_record = K.WaveformPacketStruct(bits_per_sample=f[0], waveform_compression_type=f[1], number_of_samples=f[2], temporal_sample_spacing=f[3],
+                                                 digitizer_gain=lasio.bits_f64(f[4]), digitizer_offset=lasio.bits_f64(f[5]))
+        return v
+    if kind == "geokeys":
+        v = K.GeoKeyDirectoryVlr()
+        keys = []
+        for i in range((len(data) - 8) // 8):
+            f = [x for _, x in py_dec_fields(PY_KNOWN["geokey"], data[8 + 8 * i:16 + 8 * i])[0]]
+            e = K.GeoKeyEntryStruct()
+            e.id, e.tiff_tag_location, e.count, e.value_offset = f
+            keys.append(e)
+        v.geo_keys_header.number_of_keys = len(keys)
+        v.geo_keys = keys
+        return v
+    if kind == "geodoubles":
+        v = K.GeoDoubleParamsVlr()
+        v.doubles = [ctypes.c_double(lasio.bits_f64(int.from_bytes(data[i:i + 8], "little"))) for i in range(0, len(data), 8)]
+        return v
+    if kind == "geoascii":
+        v = K.GeoAsciiParamsVlr()
+        v.strings = data.decode("ascii").split("\0")
+        return v
+    if kind == "wkt":
+        s = data.rstrip(b"\0").decode()
+        if r == 2112:
+            return K.WktCoordinateSystemVlr(s)
+        v = K.WktMathTransformVlr()
+        v.string = s
+        return v
+    return None
+
+
+def known_descriptions(case, api):
+    """a record built through laspy's own class carries that class's description (None here: not compared), except the waveform
+    packet descriptor, whose class takes one"""
+    for x in case["vlrs"] + case["evlrs"]:
+        if api and known_kind(x[0], x[1]) in ("lookup", "geokeys", "geodoubles", "geoascii", "wkt"):
+            x[2] = None
+        elif x[2] is None:
+            x[2] = ""
+
+
+def rand_vlrs(rng, k, big=False, known=0.0, api=False):
     out = []
     for _ in range(k):
+        if not big and rng.random() < known:
+            # a record whose payload the specification lays out, in its full form
+            out.append(known_vlr(rng, rng.choice(KNOWN_KINDS), api))
+            continue
         uid = lasio.rand_ascii(rng, rng.choice([0, 1, 15, 16, rng.randrange(17)]))
         if uid in ("LASF_Spec", "LASF_Projection", "laszip encoded", "copc"):
             uid = "U" + uid[1:]
@@ -583,9 +836,12 @@ def make_case(rng, version, fmt, n, n_eb, laspy_side, idx, trailing=0, path="wri
         hdr["mins"] = [rng.choice(F64_SPECIAL + [rng.getrandbits(64)]) for _ in range(3)]
         lim = 2 ** 32 - 1 if minor < 4 else 2 ** 64 - 1
         hdr["by_return"] = [rng.choice([0, 1, lim, rng.randrange(lim + 1)]) for _ in range(15 if minor >= 4 else 5)]
+    # records whose payload the specification lays out (classification lookup, waveform packet descriptors, GeoTIFF keys / doubles /
+    # ASCII, WKT) in their full form among the others, as VLR or EVLR; on laspy's side built through laspy's classes or handed over raw
+    known_api = laspy_side and rng.random() < 0.5
     case = {"id": idx, "version": version, "format": fmt, "n": n, "extra_dims": extra, "header": hdr,
-            "vlrs": rand_vlrs(rng, rng.choice([0, 0, 1, 2, 4])),
-            "evlrs": rand_vlrs(rng, rng.choice([0, 1, 2]), big=rng.random() < 0.2) if minor >= 4 and rng.random() < 0.6 else [],
+            "vlrs": rand_vlrs(rng, rng.choice([0, 0, 1, 2, 4]), known=0.3, api=known_api),
+            "evlrs": rand_vlrs(rng, rng.choice([0, 1, 2]), big=rng.random() < 0.2, known=0.3, api=known_api) if minor >= 4 and rng.random() < 0.6 else [],
             "points": points}
     if trailing:
         case["trailing"] = trailing
@@ -603,6 +859,10 @@ def make_case(rng, version, fmt, n, n_eb, laspy_side, idx, trailing=0, path="wri
         case["caller"] = {"buffers": rng.choice(CALLER_BUFFERS), "buffer_type": rng.choice(["f8", "f8", "f8", "view", "f4", "i8", "list", "tuple"]),
                           "add": rng.choice(ADD_ROUTES), "clobber_values": rng.random() < 0.5,
                           "type_as": rng.choice(["str", "str", "dtype", "1str", "class"]), "multi_assign": rng.random() < 0.3}
+        # how the header attributes are assigned (HEADER_ROUTES, in turn over the cases) and in which form a flag is given
+        k = idx if isinstance(idx, int) else rng.randrange(len(HEADER_ROUTES))
+        case["caller"].update(header_route=HEADER_ROUTES[k % len(HEADER_ROUTES)], flag_form=FLAG_FORMS[(k // len(HEADER_ROUTES) + k) % len(FLAG_FORMS)],
+                              known_as="api" if known_api else "raw")
         case["dest"] = rng.choice(DESTS)
     else:
         # bytes of another producer after the last point record (padding, waveform data packets) / between the last point and the EVLRs
@@ -671,6 +931,23 @@ def make_cases(ctx, laspy_side):
                                    trailing=rng.choice([1, 2, 4, 7, 300]))); idx += 1
             v = rng.choice([v for v in lasio.VERSIONS if f in lasio.COMPAT[v]])
             cases.append(make_case(rng, v, f, rng.choice([2, 5]), 0, False, idx, trailing=rng.choice([1, 3, 8, 255, 256, 1000]))); idx += 1
+    # every payload the specification lays out, in its full form (the complete 256-record classification lookup table with blank
+    # descriptions, a partial one, a single blank record, waveform packet descriptor, GeoKeyDirectory / doubles / ASCII, both WKT
+    # records, text area): once as VLR, once as EVLR, alone / next to another record of its kind / between ordinary records
+    for j, kind in enumerate(KNOWN_KINDS):
+        for place in ("vlrs", "evlrs"):
+            v = "1.4" if place == "evlrs" else rng.choice(lasio.VERSIONS)
+            c2 = make_case(rng, v, rng.choice(lasio.COMPAT[v]), rng.choice([0, 1, 3]), rng.choice([0, 0, 1]), laspy_side, idx); idx += 1
+            api = laspy_side and (j + (place == "evlrs") + ctx.seed) % 2 == 0
+            recs = [known_vlr(rng, kind, api)]
+            if (j + ctx.seed) % 3 == 0:
+                recs.append(known_vlr(rng, kind if not kind.startswith("lookup") else rng.choice(["lookup-full", "lookup-partial"]), api))
+            others = [x for x in c2[place] if known_kind(x[0], x[1]) is None and len(x[3]) <= 2 * 65535][:2]
+            c2[place] = others[:1] + recs + others[1:]
+            if laspy_side:
+                c2["caller"]["known_as"] = "api" if api else "raw"
+            known_descriptions(c2, api)
+            cases.append(c2)
     for _ in range(ctx.n(25, 600)):         # random mixtures
         v, f = rng.choice(pairs)
         cases.append(make_case(rng, v, f, rng.choice([0, 1, 2, 3, 17, 50]), rng.choice([0, 0, 1, 2, 4]), laspy_side, idx,
@@ -705,9 +982,15 @@ def case_date(hdr):
     return date(y, 1, 1) + timedelta(d - 1)
 
 
-def _vlr_objs(lst):
+def _vlr_objs(lst, api=False):
+    """VLR objects for a list of records: plain laspy.VLR objects, or (api) the class laspy has for the record, filled in through
+    its attributes"""
     import laspy
-    return [laspy.VLR(user_id=u, record_id=r, description=ds, record_data=bytes.fromhex(p)) for u, r, ds, p in lst]
+    out = []
+    for u, r, ds, p in lst:
+        v = known_obj(u, r, ds, p) if api else None
+        out.append(v if v is not None else laspy.VLR(user_id=u, record_id=r, description=ds or "", record_data=bytes.fromhex(p)))
+    return out
 
 
 SCRATCH = f"/var/tmp/c02_{os.getpid()}"
@@ -787,7 +1070,7 @@ class Caller:
 
     def __init__(self, conf):
         self.conf = dict({"buffers": "fresh", "buffer_type": "f8", "add": "header.add_extra_dim", "clobber_values": False,
-                          "type_as": "str", "multi_assign": False}, **(conf or {}))
+                          "type_as": "str", "multi_assign": False, "header_route": "plain", "flag_form": "bool", "known_as": "raw"}, **(conf or {}))
         self.bufs = {}
         self.params = None
         self.handed = []
@@ -846,6 +1129,95 @@ class Caller:
         self.handed = []
 
 
+# how the caller assigns the header attributes: one plain assignment each (global encoding as a number) | every flag of the global
+# encoding through its named setter, x/y/z scale and offset through their own attributes | the whole sequence twice (a second pass
+# of a pipeline that restates what it produces) | every assignment twice in a row | other values first, then the intended ones |
+# assigned, the file written and read back, every attribute confirmed (assigned again) on the header laspy read | through the
+# legacy attribute names | a GlobalEncoding object handed to the header, then its flags restated
+HEADER_ROUTES = ["plain", "named", "named-twice", "each-twice", "toggled", "confirmed", "old-names", "object"]
+FLAG_FORMS = ["bool", "int", "np.bool_", "np.uint8"]
+GE_FLAGS = [("gps_time_type", 1), ("waveform_data_packets_internal", 2), ("waveform_data_packets_external", 4),
+            ("synthetic_return_numbers", 8), ("wkt", 16)]
+
+
+def _flag(on, form, name):
+    if name == "gps_time_type" and form == "bool":
+        from laspy.header import GpsTimeType
+        return GpsTimeType(1 if on else 0)
+    return {"bool": bool(on), "int": 1 if on else 0, "np.bool_": np.bool_(bool(on)), "np.uint8": np.uint8(1 if on else 0)}[form]
+
+
+def assign_header(h, case, conf, stage="build"):
+    """the header attributes of a case, assigned through laspy's named attributes the way conf['header_route'] says.
+    stage 'build': on the fresh header; stage 'confirm': on the header laspy read from the file it wrote (route 'confirmed' only)"""
+    from laspy.header import GlobalEncoding
+    hd = case["header"]
+    route, form = conf.get("header_route", "plain"), conf.get("flag_form", "bool")
+    minor = int(case["version"][2])
+    want = {"ge": hd["global_encoding"], "fsid": hd["file_source_id"], "uuid": uuidmod.UUID(bytes_le=bytes.fromhex(hd["uuid"])),
+            "sysid": hd["system_identifier"], "soft": hd["generating_software"], "date": case_date(hd),
+            "scales": [lasio.bits_f64(b) for b in hd["scales"]], "offsets": [lasio.bits_f64(b) for b in hd["offsets"]],
+            "wave": hd["start_of_waveform"]}
+    other = {"ge": hd["global_encoding"] ^ 0x1F, "fsid": hd["file_source_id"] ^ 0xFFFF, "uuid": uuidmod.UUID(int=0x0123456789ABCDEF),
+             "sysid": "something else", "soft": "", "date": date(1999, 12, 31), "scales": [2.0 * x for x in want["scales"]],
+             "offsets": [x + 1.0 for x in want["offsets"]], "wave": 12345}
+
+    def plain(v):
+        h.file_source_id = v["fsid"]
+        h.global_encoding.value = v["ge"]
+        h.uuid = v["uuid"]
+        h.system_identifier = v["sysid"]
+        h.generating_software = v["soft"]
+        h.creation_date = v["date"]
+        h.scales = np.array(v["scales"])
+        h.offsets = np.array(v["offsets"])
+
+    def named(v, reps=1, reserved=True, old=False):
+        if reserved:
+            # the bits the specification reserves have no named attribute: they come with the number
+            h.global_encoding.value = (int(h.global_encoding.value) & 0x1F) | (v["ge"] & 0xFFE0)
+        for name, mask in GE_FLAGS:
+            for _ in range(reps):
+                setattr(h.global_encoding, name, _flag(v["ge"] & mask, form, name))
+        for _ in range(reps):
+            if old:
+                h.filesource_id, h.system_id, h.software_id, h.date = v["fsid"], v["sysid"], v["soft"], v["date"]
+                h.scale, h.offset = np.array(v["scales"]), np.array(v["offsets"])
+            else:
+                h.file_source_id, h.system_identifier, h.generating_software, h.creation_date = v["fsid"], v["sysid"], v["soft"], v["date"]
+                h.x_scale, h.y_scale, h.z_scale = v["scales"]
+                h.x_offset, h.y_offset, h.z_offset = v["offsets"]
+            h.uuid = v["uuid"]
+            if minor >= 3 and stage == "confirm":
+                h.start_of_waveform_data_packet_record = v["wave"]
+
+    if stage == "confirm":
+        # the attributes laspy presents for its own file are what was assigned: confirmed one by one, by name
+        named(want, reserved=False)
+        return
+    if route in ("plain", "confirmed"):
+        plain(want)
+    elif route == "named":
+        named(want)
+    elif route == "named-twice":
+        named(want)
+        named(want)
+    elif route == "each-twice":
+        named(want, reps=2)
+    elif route == "toggled":
+        named(other)
+        named(want)
+    elif route == "old-names":
+        named(want, old=True)
+        named(want, reserved=False, old=True)
+    else:
+        h.global_encoding = GlobalEncoding(want["ge"])
+        plain(dict(want, ge=h.global_encoding.value))
+        named(want, reserved=False)
+    h.extra_header_bytes = bytes.fromhex(hd["extra_header_bytes"])
+    h.extra_vlr_bytes = bytes.fromhex(hd["extra_vlr_bytes"])
+
+
 def laspy_write(case):
     """build the file through laspy's API, written the way case['path'] says; returns (bytes, what laspy computed itself:
     mins / maxs / by_return)"""
@@ -855,17 +1227,8 @@ def laspy_write(case):
     path = case.get("path", "write").split(":")
     version, fmt = (path[1], int(path[2])) if path[0] == "convert" else (case["version"], case["format"])
     h = laspy.LasHeader(version=version, point_format=fmt)
-    h.file_source_id = hd["file_source_id"]
-    h.global_encoding.value = hd["global_encoding"]
-    h.uuid = uuidmod.UUID(bytes_le=bytes.fromhex(hd["uuid"]))
-    h.system_identifier = hd["system_identifier"]
-    h.generating_software = hd["generating_software"]
-    h.creation_date = case_date(hd)
-    h.scales = np.array([lasio.bits_f64(b) for b in hd["scales"]])
-    h.offsets = np.array([lasio.bits_f64(b) for b in hd["offsets"]])
-    h.extra_header_bytes = bytes.fromhex(hd["extra_header_bytes"])
-    h.extra_vlr_bytes = bytes.fromhex(hd["extra_vlr_bytes"])
     caller = Caller(case.get("caller"))
+    assign_header(h, case, caller.conf)
     add = caller.conf["add"]
     if caller.conf["buffers"] == "params-object":
         add = add.replace("add_extra_dims", "add_extra_dim")     # one object: the dimensions are added one call after the other
@@ -914,7 +1277,8 @@ def laspy_write(case):
             for d in case["extra_dims"]:
                 h.add_extra_dim(caller.param(d))
                 caller.after_call()
-    for v in _vlr_objs(case["vlrs"]):
+    known_api = caller.conf.get("known_as") == "api"
+    for v in _vlr_objs(case["vlrs"], known_api):
         h.vlrs.append(v)
     las = laspy.LasData(h)
     las.points = laspy.ScaleAwarePointRecord.zeros(n, header=h)
@@ -942,7 +1306,7 @@ def laspy_write(case):
             assign(las, [nm for nm in cols if nm not in before])
     elif n:
         assign(las, [nm for nm in cols if nm not in assigned])
-    evlrs = VLRList(_vlr_objs(case["evlrs"])) if case["evlrs"] else None
+    evlrs = VLRList(_vlr_objs(case["evlrs"], known_api)) if case["evlrs"] else None
     if evlrs is not None:
         las.evlrs = evlrs
     # statistics are laspy's own computation (C03); update_header() also clears the waveform pointer of a 1.4 header, so the
@@ -950,6 +1314,14 @@ def laspy_write(case):
     las.update_header()
     if int(case["version"][2]) >= 3:
         las.header.start_of_waveform_data_packet_record = hd["start_of_waveform"]
+    if caller.conf.get("header_route") == "confirmed":
+        # the file is written, read back by laspy, and the caller confirms every header attribute by name on what laspy presents
+        # before the file is produced for good
+        bio = io.BytesIO()
+        las.write(bio)
+        las = laspy.read(io.BytesIO(bio.getvalue()))
+        assign_header(las.header, case, caller.conf, stage="confirm")
+        evlrs = las.evlrs if evlrs is not None else None
     dest = Dest(case.get("dest", "bytesio"), f"w{case['id']}")
     try:
         hh = las.header
@@ -1011,6 +1383,10 @@ def laspy_present(data, case):
                  for v in las.vlrs if not (v.user_id == "LASF_Spec" and v.record_id == 4)]
     P["evlrs"] = [[lasio.sbytes(v.user_id).decode("latin1"), int(v.record_id), lasio.sbytes(v.description).decode("latin1"), bytes(v.record_data_bytes()).hex()]
                   for v in (las.evlrs or [])]
+    # the records whose payload the specification lays out, as laspy presents their contents (attributes of its classes)
+    kv = lambda lst: [known_laspy_view(v) if known_kind(lasio.sbytes(v.user_id).decode("latin1"), int(v.record_id)) else None for v in lst]
+    P["known"] = kv([v for v in las.vlrs if not (v.user_id == "LASF_Spec" and v.record_id == 4)])
+    P["eknown"] = kv(las.evlrs or [])
     P["extra_dims"] = []
     for d in las.point_format.extra_dimensions:
         dt = d.dtype
@@ -1205,6 +1581,11 @@ def spec_decode_files(ref, files):
         R["points"] = pts
         if step == 3 and outs[3 * k + 2] != pts:
             R["gen_differs"] = True
+    # the payloads the specification lays out (classification lookup, waveform packet descriptor, GeoTIFF, WKT), read by the reference
+    done = [R for R in res if "vlrs" in R]
+    kv = known_views_many(ref, [R["vlrs"] for R in done] + [R["evlrs"] for R in done])
+    for j, R in enumerate(done):
+        R["known"], R["eknown"] = kv[j], kv[len(done) + j]
     return res
 
 
@@ -1350,13 +1731,18 @@ def compare_laspy_writes(case, own, R):
         out.append(("file length", f"file of {rh['file_len']} bytes; header + VLRs + {rh['point_count']} records of {rh['point_size']} bytes + EVLRs end at {rh['expected_len']}"))
     if any(x != "0000" for x in R["vlr_reserved"]):
         out.append(("vlr reserved", f"{R['vlr_reserved']}"))
-    for nm, a, b in (("vlr", case["vlrs"], R["vlrs"]), ("evlr", case["evlrs"], R["evlrs"])):
+    for nm, a, b, kb in (("vlr", case["vlrs"], R["vlrs"], R["known"]), ("evlr", case["evlrs"], R["evlrs"], R["eknown"])):
         if len(a) != len(b):
             out.append((f"{nm} count", f"assigned {len(a)}, decoder read {len(b)}"))
         for j, (x, y) in enumerate(zip(a, b)):
             for f_, xa, ya in zip(("user_id", "record_id", "description", "payload"), x, y):
-                if xa != ya:
-                    out.append((f"{nm} {f_}", f"{nm} {j}: assigned {str(xa)[:70]!r}, decoder read {str(ya)[:70]!r}"))
+                if xa != ya and xa is not None:
+                    out.append((f"{nm} {f_}", f"{nm} {j}: assigned {str(xa)[:70]!r}, decoder read {len(ya) // 2 if f_ == 'payload' else ''} {str(ya)[:70]!r}"))
+        # the contents of the records the specification lays out: the values the caller gave (to laspy's class, or as bytes in
+        # the specification's form), as the decoder finds them
+        for j, (e, g) in enumerate(zip(known_views(PyRef(), a), kb)):
+            if e != g:
+                out.append((f"{nm} known-record values", f"{nm} {j} ({a[j][0]}, {a[j][1]}): assigned {str(e)[:160]}, decoder read {str(g)[:160]}"))
     if len(R["descriptors"]) != len(case["extra_dims"]):
         out.append(("extra-bytes descriptor count", f"assigned {len(case['extra_dims'])}, decoder read {len(R['descriptors'])}"))
     for j, (d, r) in enumerate(zip(case["extra_dims"], R["descriptors"])):
@@ -1394,7 +1780,7 @@ def _eb_of(case, leaf):
     return d["data_type"], d["nbytes"]
 
 
-def compare_spec_writes(case, P, point_data=None):
+def compare_spec_writes(case, P, point_data=None, known=None):
     """case: what the reference encoder wrote; P: what laspy presents; point_data: the bytes of the file's point records"""
     if "error" in P:
         return [("laspy.read", P["error"])]
@@ -1419,7 +1805,13 @@ def compare_spec_writes(case, P, point_data=None):
         for j, (x, y) in enumerate(zip(a, b)):
             for f_, xa, ya in zip(("user_id", "record_id", "description", "payload"), x, y):
                 if xa != ya:
-                    out.append((f"{nm} {f_}", f"{nm} {j}: written {str(xa)[:70]!r}, laspy presents {str(ya)[:70]!r}"))
+                    out.append((f"{nm} {f_}", f"{nm} {j}: written {f'{len(xa) // 2} bytes ' if f_ == 'payload' else ''}{str(xa)[:70]!r}, "
+                                f"laspy presents {f'{len(ya) // 2} bytes ' if f_ == 'payload' else ''}{str(ya)[:70]!r}"))
+    # the records whose payload the specification lays out: the reference's reading of the payload against the contents laspy presents
+    for nm, a, ex, got in (("vlr", case["vlrs"], (known or ([], []))[0], P.get("known", [])), ("evlr", case["evlrs"], (known or ([], []))[1], P.get("eknown", []))):
+        for j, (e, g) in enumerate(zip(ex, got)):
+            if e is not None and e != g:
+                out.append((f"{nm} known-record values", f"{nm} {j} ({a[j][0]}, {a[j][1]}): written {str(e)[:160]}, laspy presents {str(g)[:160]}"))
     if len(P["extra_dims"]) != len(case["extra_dims"]) + (1 if trailing else 0):
         out.append(("extra-bytes descriptor count", f"written {len(case['extra_dims'])} descriptors and {trailing} undocumented bytes per record, "
                     f"laspy presents {len(P['extra_dims'])} extra dimensions: {[(p['name'], p['elem'], p['count']) for p in P['extra_dims']]}"))
@@ -1534,7 +1926,11 @@ def compare_file(case, R, label="re-written file: ", exact_len=True, verbs=("rea
         for j, (x, y) in enumerate(zip(a, b)):
             for f_, xa, ya in zip(("user_id", "record_id", "description", "payload"), x, y):
                 if xa != ya:
-                    out.append((label + f"{nm} {f_}", f"{nm} {j}: read {str(xa)[:70]!r}, {wr} {str(ya)[:70]!r}"))
+                    out.append((label + f"{nm} {f_}", f"{nm} {j}: read {f'{len(xa) // 2} bytes ' if f_ == 'payload' else ''}{str(xa)[:70]!r}, "
+                                f"{wr} {f'{len(ya) // 2} bytes ' if f_ == 'payload' else ''}{str(ya)[:70]!r}"))
+        for j, (e, g) in enumerate(zip(known_views(PyRef(), a), R.get("known" if nm == "vlr" else "eknown", []))):
+            if e != g:
+                out.append((label + f"{nm} known-record values", f"{nm} {j} ({a[j][0]}, {a[j][1]}): {rd} {str(e)[:160]}, {wr} {str(g)[:160]}"))
     if len(R["descriptors"]) != len(case["extra_dims"]):
         out.append((label + "extra-bytes descriptor count", f"{rd} {len(case['extra_dims'])}, {wr} {len(R['descriptors'])}"))
     for j, (d, r) in enumerate(zip(case["extra_dims"], R["descriptors"])):
@@ -1579,7 +1975,8 @@ def compare_rewrite(case, R):
 def run_spec_writes(ref, cases, files=None):
     files = files if files is not None else spec_encode_files(ref, cases)
     res, again = [], []
-    for c, f in zip(cases, files):
+    kv = known_views_many(ref, [c["vlrs"] for c in cases] + [c["evlrs"] for c in cases])
+    for ci, (c, f) in enumerate(zip(cases, files)):
         if isinstance(f, dict):
             res.append([("reference encoder", f["error"])])
             continue
@@ -1588,7 +1985,8 @@ def run_spec_writes(ref, cases, files=None):
         except Exception as ex:
             P = {"error": f"{common.exc_kind(ex)}: {str(ex)[:200]}"}
         off = int.from_bytes(f[96:100], "little")
-        res.append(compare_spec_writes(c, P, f[off:off + c["n"] * py_size(c["format"], case_ebs(c))]))
+        res.append(compare_spec_writes(c, P, f[off:off + c["n"] * py_size(c["format"], case_ebs(c))],
+                                       known=(kv[ci], kv[len(cases) + ci])))
         if "error" not in P and all(_finite(b) for b in c["header"]["scales"] + c["header"]["offsets"]):
             # (a NaN or infinite scale factor has no meaning: laspy's writer is not asked to reproduce such a header)
             if isinstance(P["rewritten"], dict):
@@ -1635,6 +2033,35 @@ def sample_of(direction, c):
             "extra_dims": [type_str(d["data_type"], d["nbytes"]) + ("*scaled" if d["scaled"] else "") for d in c["extra_dims"]],
             "vlrs": len(c["vlrs"]), "evlrs": len(c["evlrs"]), "first_point": c["points"][0][:8] if c["points"] else [],
             "written_through": c.get("path"), "undocumented_trailing_bytes": c.get("trailing", 0)}
+
+
+# ---------------------------------------------------------------------------------------------------
+# the classification lookup table as laspy's class builds it from a payload (model: lookup_parse)
+# ---------------------------------------------------------------------------------------------------
+def lookup_inputs(ctx, cases):
+    rng = ctx.rng
+    out = [bytes.fromhex(x[3]) for c in cases for x in c["vlrs"] + c["evlrs"] if known_kind(x[0], x[1]) == "lookup"]
+    for _ in range(ctx.n(30, 400)):
+        k = rng.choice([0, 1, 2, 5, 40])
+        recs = []
+        for _ in range(k):
+            c = rng.choice([0, 1, 255, rng.randrange(256)] + [r[0] for r in recs[:3]])     # class numbers may repeat
+            d = bytes(rng.choice([0, 0, 65, 66, 122, rng.randrange(1, 128)]) for _ in range(15)) if rng.random() < 0.4 \
+                else lasio.rand_ascii(rng, rng.choice([0, 1, 14, 15])).encode().ljust(15, b"\0")
+            recs.append(bytes([c]) + d)
+        out.append(b"".join(recs) + bytes(rng.randrange(1, 256) for _ in range(rng.choice([0, 0, 0, 1, 15, 17]))))
+    return out
+
+
+def lookup_impl(payload):
+    """laspy's table for a payload, in the model driver's vocabulary"""
+    from laspy.vlrs.known import ClassificationLookupVlr
+    v = ClassificationLookupVlr()
+    try:
+        v.parse_record_data(payload)
+    except Exception:
+        return "none"
+    return "ok " + (";".join(f"{int(c)}:{common.hexb(d.encode('latin1'))}" for c, d in v.lookups.items()) or "-")
 
 
 # ---------------------------------------------------------------------------------------------------
@@ -1761,6 +2188,8 @@ def make_session(rng, version, fmt, route, tailkind, idx):
         base["gap"] = rb(rng.choice([1, 3, 30, 200]))
     sess = {"id": f"s{idx}", "route": route, "tailkind": tailkind, "base": base,
             "entry": rng.choice(["open", "class", "path", "fileobj"]), "record": rng.choice(["scaleaware", "packed"])}
+    # read + edit + write / reader -> writer: the caller confirms (assigns again, by name) every header attribute laspy presents
+    sess["confirm"] = route in ("edit", "copy") and rng.random() < 0.6
     ex = base["extra_dims"]
     if route == "append":
         sess["chunks"] = [gen_points(rng, fmt, ex, trailing, m, True) for m in rng.choice([[1], [3], [2, 0, 1], [0], [4, 1], [7]])]
@@ -1848,6 +2277,16 @@ def assign_points(target, case, points, sel=None):
             target[dname][sel] = val
 
 
+def confirm_header(h):
+    """the caller restates what the header of a file says: every named attribute is assigned the value it presents"""
+    ge = h.global_encoding
+    for name, _ in GE_FLAGS:
+        setattr(ge, name, getattr(ge, name))
+    for name in ("file_source_id", "uuid", "system_identifier", "generating_software", "x_scale", "y_scale", "z_scale",
+                 "x_offset", "y_offset", "z_offset"):
+        setattr(h, name, getattr(h, name))
+
+
 def session_run(sess, original):
     """the laspy side of a session -> bytes of the resulting file"""
     import laspy
@@ -1878,6 +2317,8 @@ def session_run(sess, original):
             return dest.value()
         if route == "edit":
             las = laspy.read(io.BytesIO(original))
+            if sess.get("confirm"):
+                confirm_header(las.header)
             _session_edit(las, sess, base)
             las.write(dest.target())
             return dest.value()
@@ -1886,6 +2327,8 @@ def session_run(sess, original):
         try:
             src.preload(original)
             with laspy.open(src.target()) as rd:
+                if sess.get("confirm"):
+                    confirm_header(rd.header)
                 with laspy.open(dest.target(), mode="w", header=rd.header, **dest.kw()) as w:
                     for pts in rd.chunk_iterator(sess["chunk_size"]):
                         w.write_points(pts)
@@ -2019,6 +2462,11 @@ def compare_session(sess, original, result, R0, R):
         off = R0["header"]["offset_to_point_data"]
         if result[HS[int(exp["version"][2])]:off] != original[HS[int(exp["version"][2])]:off]:
             out.append((label + "VLR area", "the bytes between the header block and the first point record changed"))
+    if sess.get("confirm"):
+        # what the caller confirmed by name is what the file said: the new file says the same
+        for k in ("file_source_id", "global_encoding", "uuid", "system_identifier", "generating_software", "scales", "offsets"):
+            if R["header"][k] != R0["header"][k]:
+                out.append((label + f"header {k}", f"original file {R0['header'][k]!r}, confirmed through laspy's attribute, new file {R['header'][k]!r}"))
     if route == "mmap":
         n, ps = R0["header"]["point_count"], R0["header"]["point_size"]
         off = R0["header"]["offset_to_point_data"]
@@ -2988,6 +3436,13 @@ def register(ctx, direction, cases):
         for d in c["extra_dims"]:
             ctx.count(f"extra data_type {d['data_type']}" + (" scaled" if d["scaled"] else ""))
         ctx.count("files with EVLRs", 1 if c["evlrs"] else 0)
+        if "caller" in c:
+            ctx.count(f"header assigned: {c['caller'].get('header_route', 'plain')}")
+        for place in ("vlrs", "evlrs"):
+            for x in c[place]:
+                k = known_kind(x[0], x[1])
+                if k:
+                    ctx.count(f"specification payload {k} as {place[:-1].upper()}" + (" (complete 256-record table)" if k == "lookup" and len(x[3]) == 8192 else ""))
         ctx.traces += 1 + c["n"] + len(c["vlrs"]) + len(c["evlrs"]) + len(ebs)
 
 
@@ -3022,6 +3477,14 @@ def correspond(ctx):
         "and the model of the assignments on the same triples. "
         "(iii) record-length resolution sweep: formats x descriptor sets x VLR present/absent x record length in {std-1, std, std+1, std+described-1, "
         "std+described, +1, +2..300}: model of read_from vs laspy, refusals included. "
+        "(vii) header attributes of (i) assigned in turn: plain / flags of the global encoding by name (bool, int, numpy forms) and x/y/z "
+        "scale / offset by attribute / whole sequence twice / each assignment twice / other values first / confirmed by name after a write + "
+        "read / legacy names / GlobalEncoding object; sessions edit / copy confirm every named attribute laspy presents before writing. "
+        "(viii) every VLR payload the specification lays out in its full form (256-record classification lookup with blank descriptions, partial "
+        "tables with blanks, one blank record, waveform descriptor, GeoKeyDirectory, GeoDoubleParams, GeoAsciiParams, WKT cs / math, text area) once "
+        "as VLR and once as EVLR per direction (alone / two adjacent / between ordinary records), and in 30% of the records of every other case; "
+        "(i) through laspy's class or raw; (ii) reference reading of the payload vs the contents laspy's classes present, the payload laspy holds and "
+        "re-writes; lookup-table model (dict semantics) vs ClassificationLookupVlr on those tables and on 30+ malformed ones. "
         "non-trivial = at least one point, VLR or extra dimension; distinct by (direction, version, format, "
         "extra-bytes layout, first points, uuid)")
     W, Rc = cases_for(ctx)
@@ -3087,6 +3550,24 @@ def correspond(ctx):
             f_["model"] = "the positions each assignment names hold its values, every other element is what it was"
             dis.append(f_)
     model_elems(EL, dis)
+    # payloads of the other records the specification lays out: field names of the two transcriptions; the model of the
+    # classification lookup table (Model/PointLayout.v lookup_parse: dict semantics of ClassificationLookupVlr.parse_record_data)
+    # against laspy's class on the tables of the cases and on malformed ones (class numbers repeated, bytes behind the NUL of a
+    # description, a payload that is not a whole number of records)
+    outs = common.run_model([f"known_names {k}" for k in PY_KNOWN], name="c02")
+    for k, o in zip(PY_KNOWN, outs):
+        if o.split("|") != [n for n, _, _ in PY_KNOWN[k]]:
+            dis.append({"kind": "reference codecs differ: fields of a known payload", "input": {"payload": k}, "model": o[:200], "impl": str(PY_KNOWN[k])[:200]})
+    LI = _CASES.setdefault("lookups", lookup_inputs(ctx, Rc + [s_["base"] for s_ in S]))
+    outs = common.run_model([f"lookup {common.hexb(pl)}" for pl in LI], name="c02")
+    for pl, o in zip(LI, outs):
+        impl_o = lookup_impl(pl)
+        ctx.case(("lookup", pl), nontrivial=len(pl) > 0, sample={"direction": "lookup-table", "payload_bytes": len(pl)})
+        ctx.count("classification lookup payload: " + ("whole records" if len(pl) % 16 == 0 else "not a whole number of records"))
+        ctx.traces += 1
+        if o != impl_o:
+            dis.append({"kind": "lookup table: ClassificationLookupVlr.parse_record_data", "input": {"direction": "lookup-table", "payload": pl.hex()},
+                        "model": o[:300], "impl": impl_o[:300]})
     # which records a file has: the model of LasHeader.read_from (Gen/GenC02.v resolve_record over laspy's tables) against laspy
     RI = _CASES.setdefault("resolve", resolve_inputs(ctx))
     outs = common.run_model([f"resolve {i['format']} {eb_tok(eb_pairs(i['extra_dims']))} {'T' if i['has_vlr'] else 'F'} {i['point_size']}" for i in RI], name="c02")
